@@ -250,3 +250,12 @@ func failDetail(sc *world.Scenario, r *world.Run, extra map[string]any) map[stri
 	}
 	return d
 }
+
+func contains(xs []string, x string) bool {
+	for _, y := range xs {
+		if x == y {
+			return true
+		}
+	}
+	return false
+}
